@@ -111,7 +111,6 @@ theorem wrun_requests (cfg : WCfg) (x₁ : Bytes) (P₁ : Parser) (k : Nat) (xs 
 
 
 /-! ## reverse proxy: routes answered by the plugin itself -/
-namespace Px.Persist
 open Px Px.Parser Px.Reverse
 
 /-- in every plugin the first matching route (if any) is a dynamic route whose `handle_route`
